@@ -50,8 +50,15 @@ func RunC18(tier string) int {
 	}
 	defer st.Cleanup()
 	n := tierN(tier, 40, 500)
-	e1.Parallel(n, func(i int) {
-		r := rng.Derive(uint64(run.Seed), "C18", fmt.Sprint(i))
+	// tty=true: the same scenario on a pseudo terminal, i.e. with the interactive Bubble Tea UI
+	// running (how a user at a shell prompt runs grog): Ctrl-C arrives as a key press that the UI
+	// turns into the cancellation, SIGINT/SIGTERM are seen by the UI's own handler as well
+	interruptCase := func(i int, tty bool) {
+		stream, pfx := "C18", "i"
+		if tty {
+			stream, pfx = "C18-tty", "y"
+		}
+		r := rng.Derive(uint64(run.Seed), stream, fmt.Sprint(i))
 		pf := spec.DefaultProfile()
 		pf.MinTargets, pf.MaxTargets, pf.EdgeProb = 4, 9, 30
 		s := spec.Gen(r, pf)
@@ -67,7 +74,7 @@ func RunC18(tier string) int {
 			}
 		}
 		gcfg := grog.Config{NumWorkers: r.Range(2, 4), FailFast: r.Chance(1, 4)}
-		env, err := e1.NewEnv(st.Base, fmt.Sprintf("i%d", i), st.Grog, st.Vctl, s, gcfg)
+		env, err := e1.NewEnv(st.Base, fmt.Sprintf("%s%d", pfx, i), st.Grog, st.Vctl, s, gcfg)
 		if err != nil {
 			run.Infra(err.Error())
 			return
@@ -83,11 +90,42 @@ func RunC18(tier string) int {
 		point := rng.Pick(r, signalPoints)
 		hit := r.Range(1, 4)
 		external := r.Chance(1, 5)
+		key := tty && r.Chance(1, 2)
 		var opts grog.RunOpts
 		opts.Build = "b1"
 		opts.Timeout = 60 * time.Second
+		opts.Pty = tty
 		placement := fmt.Sprintf("%s#%d", point, hit)
-		if external {
+		if key {
+			// Ctrl-C typed at the terminal once the K-th command has been spawned (or after a
+			// delay), optionally after other key presses the UI must cope with
+			external = true
+			sig = "CTRL-C"
+			after := r.Range(0, 3)
+			delay := time.Duration(r.Range(0, 400)) * time.Millisecond
+			noise := rng.Pick(r, []string{"", "s", "ss", "x\r", "\x1b[A\x1b[B", "s\x1b[Cq"})
+			placement = fmt.Sprintf("key:after-%d-spawns+%dms noise=%q", after, delay.Milliseconds(), noise)
+			opts.WithPty = func(pid int, master *os.File) {
+				for w := 0; w < 400; w++ {
+					k := 0
+					for _, ev := range e1.ReadHookLog(hookLog) {
+						if ev.Name == "cmd.attempt" {
+							k++
+						}
+					}
+					if k >= after && (k > 0 || w > 10) {
+						break
+					}
+					time.Sleep(10 * time.Millisecond)
+				}
+				time.Sleep(delay)
+				if noise != "" {
+					_, _ = master.Write([]byte(noise))
+					time.Sleep(30 * time.Millisecond)
+				}
+				_, _ = master.Write([]byte{3})
+			}
+		} else if external {
 			delay := time.Duration(r.Range(20, 1500)) * time.Millisecond
 			placement = fmt.Sprintf("external+%dms", delay.Milliseconds())
 			opts.AfterStart = func(pid int) {
@@ -100,6 +138,13 @@ func RunC18(tier string) int {
 			}
 		} else {
 			opts.Env = []string{fmt.Sprintf("GROG_VERIF_PLAN=%s=sig:%d:%s", point, hit, sig)}
+		}
+		pcl := pointClass(point, external)
+		if key {
+			pcl = "ctrl-c-key"
+		}
+		if tty {
+			pcl = "tty:" + pcl
 		}
 		if err := env.Sync(); err != nil {
 			run.Infra(err.Error())
@@ -129,6 +174,12 @@ func RunC18(tier string) int {
 		endMono := monoNow()
 		run.Eval(1)
 		run.Count("interrupted_builds", 1)
+		if tty {
+			run.Count("interrupted_builds_on_a_terminal(interactive UI)", 1)
+			if key {
+				run.Count("interrupted_by_ctrl-c_key_press", 1)
+			}
+		}
 		evs := e1.ReadHookLog(hookLog)
 		run.Count("hook_events", len(evs))
 		var cancelSeq, cancelMono int64 = -1, 0
@@ -141,7 +192,7 @@ func RunC18(tier string) int {
 		}
 		obs := env.ReadTrace("b1")
 		replay := map[string]any{"placement": placement, "signal": sig, "history": env.Log, "stdout": tail(res.Stdout, 1500), "stderr": tail(res.Stderr, 800),
-			"trace": obs.Order, "num_workers": gcfg.NumWorkers, "fail_fast": gcfg.FailFast}
+			"trace": obs.Order, "num_workers": gcfg.NumWorkers, "fail_fast": gcfg.FailFast, "tty": tty}
 		viol := func(sig2, what string) {
 			keep = !run.Violation(sig2, what, replay) || keep
 		}
@@ -158,7 +209,7 @@ func RunC18(tier string) int {
 				if res.Hang {
 					kind = "hang"
 				}
-				viol("no-exit-after-signal "+kind+" at="+pointClass(point, external), fmt.Sprintf("grog was still running %.0f s after it had observed %s (placement %s); quiescent=%v", since.Seconds(), sig, placement, res.Hang))
+				viol("no-exit-after-signal "+kind+" at="+pcl, fmt.Sprintf("grog was still running %.0f s after it had observed %s (placement %s); quiescent=%v", since.Seconds(), sig, placement, res.Hang))
 			} else {
 				run.Inconclusive("build hit the wall-clock cap without (or shortly after) the signal: " + placement)
 			}
@@ -172,7 +223,7 @@ func RunC18(tier string) int {
 			}
 		}
 		run.Count("signal_observed", 1)
-		run.Count("placement:"+pointClass(point, external), 1)
+		run.Count("placement:"+pcl, 1)
 		// unfinished work at the signal?
 		completed := map[string]bool{}
 		resultAfter := map[string]bool{}
@@ -194,9 +245,9 @@ func RunC18(tier string) int {
 			}
 		}
 		if cancelSeq >= 0 && unfinished > 0 {
-			run.Nontrivial(fmt.Sprintf("%s|%s|%s|u%d", pointClass(point, external), sig, s.Shape(), unfinished))
+			run.Nontrivial(fmt.Sprintf("%s|%s|%s|u%d", pcl, sig, s.Shape(), unfinished))
 			if res.Exit == 0 {
-				viol("exit-zero-after-interrupt at="+pointClass(point, external), fmt.Sprintf("grog exited 0 although %d selected targets were unfinished when %s arrived at %s", unfinished, sig, placement))
+				viol("exit-zero-after-interrupt at="+pcl, fmt.Sprintf("grog exited 0 although %d selected targets were unfinished when %s arrived at %s", unfinished, sig, placement))
 				return
 			}
 		}
@@ -249,8 +300,14 @@ func RunC18(tier string) int {
 				return
 			}
 		}
-		run.Sample(map[string]any{"placement": placement, "signal": sig, "exit": res.Exit, "wall_ms": wall.Milliseconds(), "trace": obs.Order})
-	})
+		run.Sample(map[string]any{"placement": placement, "signal": sig, "tty": tty, "exit": res.Exit, "wall_ms": wall.Milliseconds(), "trace": obs.Order})
+	}
+	e1.Parallel(n, func(i int) { interruptCase(i, false) })
+	if grog.PtyAvailable() {
+		e1.Parallel(tierN(tier, 24, 300), func(i int) { interruptCase(i, true) })
+	} else {
+		run.Count("pseudo_terminals_unavailable(interactive path not driven)", 1)
+	}
 	// wide builds (worker pool queue full at the signal): exit within the cap, non-zero
 	e1.InterruptWidePart(run, st, tierN(tier, 16, 160))
 	// same-command second scenario: the interrupted target must be re-executed by an identical follow-up build
@@ -398,7 +455,7 @@ func RunC18(tier string) int {
 		}
 	})
 	run.Assume("exec.CommandContext refuses to start a command once the context is cancelled; a command attempted before the cancellation may legitimately still start")
-	run.Assume("non-TTY path only (the Bubble Tea key path needs a pty)")
+	run.Assume("the interactive path is driven on a pseudo terminal that answers the colour / cursor queries like a terminal emulator; real terminal emulators are not involved")
 	return run.Finish()
 }
 
